@@ -88,7 +88,7 @@ Parse(str) ==
   IN IF root # <<109>> /\ root # <<77>> THEN res("reject", <<>>, "root")
      ELSE
      LET \* number of trailing empty tokens (trailing '/'): statement is silent
-         trail == CountLeading(Reverse([i \in 2..n |-> toks[i]]), <<>>)
+         trail == CountLeading(Reverse(SubSeq(toks, 2, n)), <<>>)
          m == n - trail                   \* tokens 2..m are the components
          comps == [i \in 1..(m - 1) |-> Component(toks[i + 1])]
          firstBad == IF \E i \in 1..Len(comps) : comps[i].kind = "reject"
@@ -100,8 +100,14 @@ Parse(str) ==
              THEN res("either", <<>>, "lenient")
         ELSE res("ok", [i \in 1..Len(comps) |-> comps[i].idx], "ok")
 
-\* what the pinned code does with more than five components (named deviation)
+\* what the pinned code does with more than five components (named deviation):
+\* only the root mark and the first five components are looked at
 IgnoreTail(list) == Take(list, 5)
+JoinToks(toks) == FoldLeft(LAMBDA acc, t : acc \o <<Slash>> \o t, toks[1], SubSeq(toks, 2, Len(toks)))
+TruncatedString(str) == LET toks == Split(str, Slash)
+                        IN IF Len(toks) <= 6 THEN str ELSE JoinToks(SubSeq(toks, 1, 6))
+\* number of '/'-separated tokens after the root
+NTok(str) == Len(Split(str, Slash)) - 1
 
 (***************************************************************************)
 (* Formatting.                                                             *)
